@@ -7,5 +7,5 @@ P == INSTANCE BlobReadProp WITH hdr <- [intended |-> scn.intended, size |-> scn.
                                 delivered <- got, st <- cst, bad <- ""
 PCleanOk == P!CleanOk
 \* `ret.seq` only counts calls; it is left out of the fingerprint
-View == <<scn, pc, why, pend, src, tvars, rvars, got, cst, ret.op, ret.n, ret.err, seeks, again>>
+View == <<scn, pc, why, pend, src, tvars, rvars, got, cst, ret.op, ret.n, ret.err, seeks, again, extused>>
 =============================================================================
